@@ -21,11 +21,11 @@ func init() {
 			c := sx.AsList(l[3])
 			return fmt.Sprintf("CSV separators %s quotes %s text %s", sx.Quote(sx.AsString(c[0])), sx.Quote(sx.AsString(c[1])), sx.Quote(sx.AsString(l[2])))
 		},
-		Rule: "tables of 1..3 rows x 1..3 columns with fields up to 4 characters over {a,b,space,comma,semicolon,|,\",',CR,LF,e-acute,CJK,NUL,U+FFFE,tab} (empty fields, fields made only of quotes or separators included), written raw when legal (or by coin flip quote-encoded with CsvQuoteState.EncodeString) and quote-encoded otherwise, joined with a separator chosen per gap and one of the line endings LF, CR, CRLF, LFCR, under separator sets {,} {;,} {|} {CJK} and quote sets {\"} {\",'} {'} {e-acute}; non-trivial = at least one quoted field containing a separator, quote or line break; distinct by input hash"})
+		Rule: "tables of 1..3 rows x 1..3 columns with fields up to 4 characters over {a,b,space,comma,semicolon,|,\",',CR,LF,e-acute,CJK,NUL,U+FFFE,tab,U+FEFF,U+2028,NBSP,U+200B,U+FFFD,VT,FF,U+0085} (empty fields, fields made only of quotes or separators included), written raw when legal (or by coin flip quote-encoded with CsvQuoteState.EncodeString) and quote-encoded otherwise, joined with a separator chosen per gap and one of the line endings LF, CR, CRLF, LFCR, under separator sets {,} {;,} {|} {CJK} and quote sets {\"} {\",'} {'} {e-acute}; non-trivial = at least one quoted field containing a separator, quote or line break; distinct by input hash"})
 }
 
 func genC09(ctx *Ctx) {
-	alpha := []rune{'a', 'b', ' ', ',', ';', '|', '"', '\'', '\r', '\n', 'é', '日', 0, 0xFFFE, '\t', 'ÿ', 0x100, '；', '語'}
+	alpha := []rune{'a', 'b', ' ', ',', ';', '|', '"', '\'', '\r', '\n', 'é', '日', 0, 0xFFFE, '\t', 'ÿ', 0x100, '；', '語', 0xFEFF, 0x2028, 0xA0, 0x200B, 0xFFFD, '\v', '\f', 0x85}
 	sepSets := [][]rune{{','}, {';', ','}, {'|'}, {'日'}, {'ÿ'}, {'；', ','}}
 	quoteSets := [][]rune{{'"'}, {'"', '\''}, {'\''}, {'é'}}
 	eols := []string{"\n", "\r", "\r\n", "\n\r"}
